@@ -130,7 +130,9 @@ def check_layout(case, stats):
     t1 = text.replace("\r\n", "\n").replace("\n", "\r\n")
     same(case, "T1 writing the document with CRLF line endings", base, outcome(t1, dflt))
     # T2 string -> file (scanner on a path, and the stream's source_event)
-    path = "layout-%d.feature" % os.getpid()
+    path = "layout-%d-%d.feature" % (os.getpid(), len(text) % 7)
+    # the path string itself, while no such file exists, is just a (rejected) one-line text ...
+    as_text_before = outcome(path, dflt) if not os.path.exists(path) else None
     with open(path, "w", encoding="utf8", newline="") as f:
         f.write(text)
     try:
@@ -160,6 +162,12 @@ def check_layout(case, stats):
             os.unlink(lp)
     finally:
         os.unlink(path)
+    # ... and is that text again once the file is gone (what a string means is decided anew by every scanner)
+    if as_text_before is not None:
+        as_text_after = outcome(path, dflt)
+        if as_text_after != as_text_before:
+            raise Violation(case, "the string %r parsed before the file existed and after it was removed again gives different results: %r vs %r" % (
+                path, as_text_after.get("errors"), as_text_before.get("errors")))
     # T3 trailing blanks
     if layout_lines:
         chosen = set(pick(layout_lines))
